@@ -40,7 +40,23 @@ def initSt : St := { cfg := sanitize (rawOf []), m := init vclockStart, spec := 
 
 def b (x : Bool) : String := if x then "1" else "0"
 
-def annOf (cfg : Cfg) (now : Int) (p c mt flags ver : String) : Ann :=
+/-- the assigned shard indices the announce carries: explicit `as=` list, else `1` (unless `n`) and `99` (if `A`) -/
+def assignedOf (flags : String) (asTok : Option String) : List Nat :=
+  let has (ch : Char) : Bool := flags.toList.contains ch
+  match asTok with
+  | some t =>
+    let l := (t.drop 3).toString
+    if l == "-" then [] else (l.splitOn ",").filterMap (·.toNat?)
+  | none => (if has 'n' then [] else [1]) ++ (if has 'A' then [99] else [])
+
+/-- the share indices the harness's manifest carries -/
+def carriedOf (flags : String) : List Nat := if flags.toList.contains 'T' then [1, 2] else [1, 2, 3]
+
+/-- "includes every assigned shard", from the two index lists -/
+def assignedSubset (flags : String) (asTok : Option String) : Bool :=
+  (assignedOf flags asTok).all fun i => (carriedOf flags).contains i
+
+def annOf (cfg : Cfg) (now : Int) (p c mt flags ver : String) (asTok : Option String := none) : Ann :=
   let has (ch : Char) : Bool := flags.toList.contains ch
   let dec := !has 'E' && !has 'G'
   { peer := p, chunk := c, man := s!"{c}:{mt}:{flags}:{now}",
@@ -48,8 +64,8 @@ def annOf (cfg : Cfg) (now : Int) (p c mt flags ver : String) : Ann :=
     powOk := cfg.powDifficulty == 0 || !has 'W',
     version := ver.toNat?.getD 0,
     decodable := dec, idMatch := dec && !has 'I', thresholdMet := dec && !has 'T',
-    unexpired := dec && !has 'X' && !has 'x', assignedOk := dec && !has 'A',
-    hasEndpoint := !has 'e', hasAssigned := !has 'n' || has 'A' }
+    unexpired := dec && !has 'X' && !has 'x', assignedOk := dec && assignedSubset flags asTok,
+    hasEndpoint := !has 'e', hasAssigned := !(assignedOf flags asTok).isEmpty }
 
 def factBits (a : Ann) : String :=
   b a.senderMatch ++ b a.uriNonEmpty ++ b a.powOk ++ b a.decodable ++ b a.idMatch ++ b a.thresholdMet ++ b a.unexpired ++ b a.assignedOk
@@ -63,12 +79,13 @@ def step (st : St) (tok : List String) (_line : String) (impl : Option String) :
     | some d => ({ st with m := (Announce.step st.cfg st.m (.adv d)).1 }, "ok", "ok")
     | none => (st, "bad-op", "ok")
   | ["hold", c] => ({ st with held := c :: st.held }, "ok", "ok")
-  | ["ann", p, c, mt, flags, ver] =>
+  | "ann" :: p :: c :: mt :: flags :: ver :: more =>
+    let asTok : Option String := more.head?.filter (·.startsWith "as=")
     let now := st.m.now
     let itoks0 := (impl.getD "").splitOn " "
     -- a held chunk may have expired meanwhile: for held chunks the implementation's answer is taken as a hint
     let kr := if st.held.contains c then kvStr itoks0 "kr" "0" == "1" else true
-    let a := { annOf st.cfg now p c mt flags ver with keepsReadable := kr }
+    let a := { annOf st.cfg now p c mt flags ver asTok with keepsReadable := kr }
     let r := announce st.cfg st.m a
     let ps := r.1.peers p
     let itoks := (impl.getD "").splitOn " "
@@ -90,7 +107,10 @@ def step (st : St) (tok : List String) (_line : String) (impl : Option String) :
         let f := kvStr itoks "f" ""
         let implRep := kvInt itoks "rep" 0
         let changed := kvStr itoks "chg" "0000" != "0000" || decide (implRep > st.lastRep p)
-        let admissible := f == "11111111" && (st.cfg.powDifficulty == 0 || decide ((ver.toNat?.getD 0) ≥ 3))
+        -- "includes every assigned shard" is decided here, from the announce's index lists and the manifest's
+        -- share indices; the other facts are the harness's measurements with the real validators
+        let admissible := (f.take 7).toString == "1111111" && assignedSubset flags asTok &&
+          (st.cfg.powDifficulty == 0 || decide ((ver.toNat?.getD 0) ≥ 3))
         let th : C21Spec.Throttle := { minInterval := st.cfg.minInterval, window := st.cfg.burstWindow, burst := st.cfg.burstLimit }
         let (s', v) := C21Spec.observe th st.spec now p admissible changed
         (s', (match v with | some cl => s!"viol:{cl}:peer {p} at {now - vclockStart}" | none => "ok"), implRep)
